@@ -1109,6 +1109,7 @@ impl CrashX {
         let new = ex.model.clone();
         let uni = ex.uni.clone();
         let cfg0 = ex.cfg.clone();
+        let dir_for_len = ex.dir.clone();
         let _ = ex.finish(Ok(()));
         let returned = tr.returned.unwrap_or(u64::MAX);
         let mut counts: BTreeMap<(String, &'static str), u64> = BTreeMap::new();
@@ -1331,6 +1332,121 @@ impl CrashX {
                     }
                 }
             }
+            }
+        }
+        // ---- a file-size limit for the whole process (RLIMIT_FSIZE, SIGXFSZ ignored) while the
+        // operation runs: the KERNEL then refuses (EFBIG) or cuts short every write, append and
+        // growth beyond the limit, on every file and through io_uring as well — short counts from
+        // synchronous write(2) calls included, which the seam cannot produce. One limit per distinct
+        // end offset of the reference trace: right below it (the operation is cut short inside) and
+        // at its start (refused). Success under the limit is fine (everything fitted) but must be
+        // real: a follow-up commit and a reopen (limit lifted) must work on the new state.
+        if case["fsize"].as_bool().unwrap_or(true) && !is_reopen {
+            let mut limits: BTreeSet<u64> = BTreeSet::new();
+            let mut lens: BTreeMap<String, u64> = BTreeMap::new();
+            for e in &tr.events {
+                let cur = lens.get(&e.file).cloned();
+                let (start, end) = match &e.kind {
+                    vio::Kind::Write { off, data } => (*off, *off + data.len() as u64),
+                    vio::Kind::Append { data } => {
+                        // appends start at the current end of the file (unknown from the trace alone
+                        // for pre-existing files: taken from the directory below)
+                        let l = cur.unwrap_or_else(|| std::fs::metadata(dir_for_len.join(&e.file)).map(|m| m.len()).unwrap_or(0));
+                        (l, l + data.len() as u64)
+                    }
+                    vio::Kind::SetLen(l) => (cur.unwrap_or(0).min(*l), *l),
+                    _ => continue,
+                };
+                lens.insert(e.file.clone(), end.max(cur.unwrap_or(0)));
+                if end > 4096 && end < (1 << 26) {
+                    limits.insert(end - 1);
+                    limits.insert(end - 2048.min(end - start).max(1));
+                    if start > 4096 {
+                        limits.insert(start);
+                    }
+                }
+            }
+            unsafe {
+                libc::signal(libc::SIGXFSZ, libc::SIG_IGN);
+            }
+            let set_limit = |l: u64| unsafe {
+                let mut cur: libc::rlimit = std::mem::zeroed();
+                libc::getrlimit(libc::RLIMIT_FSIZE, &mut cur);
+                let new = libc::rlimit { rlim_cur: l.min(cur.rlim_max), rlim_max: cur.rlim_max };
+                libc::setrlimit(libc::RLIMIT_FSIZE, &new);
+            };
+            for limit in limits {
+                step_no += 1;
+                if step_no <= skip {
+                    continue;
+                }
+                let what = format!("op #{target} ({}) under a file-size limit of {limit} bytes (RLIMIT_FSIZE)", ops[target].as_object().unwrap().keys().next().unwrap());
+                println!("{}", json!({"progress": format!("{step_no}|fsize-limit|{what}")}));
+                out.transitions += 1;
+                let mut ex = self.hist.start(prop, hist);
+                let mut bad = ex.open().is_err();
+                for (i, op) in ops.iter().enumerate().take(target) {
+                    if !bad && ex.step(i, op).is_err() {
+                        bad = true;
+                    }
+                }
+                if bad {
+                    let _ = ex.finish(Ok(()));
+                    continue;
+                }
+                nomt::verif::lazy::enable(lazy);
+                set_limit(limit);
+                let r = std::panic::catch_unwind(std::panic::AssertUnwindSafe(|| ex.step(target, &ops[target])));
+                set_limit(u64::MAX);
+                nomt::verif::lazy::enable(false);
+                match r {
+                    Err(_) => {
+                        found.entry("fault-panic:fsize-limit".into()).or_insert(format!("{what}: the call panicked (at {}) instead of returning an error", crate::last_panic_location()));
+                        std::mem::forget(ex);
+                        continue;
+                    }
+                    Ok(Ok(())) => {
+                        // everything fitted — or a refused / shortened write was swallowed: the new
+                        // state must be real
+                        out.goals.push("fsize-limit:operation-succeeded");
+                        let follow = json!({"c": [[0, "w", 7]]});
+                        let r2 = ex.step(9000, &follow).and_then(|_| ex.step(9001, &json!({"reopen": {}})));
+                        if let Err(v) = r2 {
+                            found.entry(format!("swallowed:fsize-limit:{}", v.fingerprint)).or_insert(format!("{what}: the call returned success, but afterwards (limit lifted) a follow-up commit and a reopen give: {}", v.msg));
+                        }
+                        let _ = ex.finish(Ok(()));
+                        continue;
+                    }
+                    Ok(Err(v)) => {
+                        if !api_error_fingerprint(&v.fingerprint) {
+                            found.entry(format!("fault-other:{}", v.fingerprint)).or_insert(format!("{what}: {}", v.msg));
+                            let _ = ex.finish(Ok(()));
+                            continue;
+                        }
+                        out.goals.push("fsize-limit:reported");
+                    }
+                }
+                if let Some(n) = ex.n.as_ref() {
+                    if !n.is_poisoned() {
+                        found.entry("not-poisoned:fsize-limit".into()).or_insert(format!("{what}: the call failed but is_poisoned() is false"));
+                    }
+                }
+                let dir = ex.dir.clone();
+                let _ = ex.finish(Ok(()));
+                match std::panic::catch_unwind(|| crate::driver::open_nomt_retry::<B3>(&dir, &cfg0, 10)) {
+                    Err(_) => {
+                        found.entry("reopen-panic:fsize-limit".into()).or_insert(format!("{what}: reopening afterwards (limit lifted) panicked"));
+                    }
+                    Ok(Err(e)) => {
+                        found.entry("reopen-failed:fsize-limit".into()).or_insert(format!("{what}: reopening afterwards (limit lifted) failed: {e:#}"));
+                    }
+                    Ok(Ok(n)) => {
+                        let sides = Sides { old: &old, new: Some(&new), new_required_from: None };
+                        if let Err(v) = side_audit(&n, &sides, &uni, 0, &what) {
+                            found.entry(format!("atomicity:fsize-limit:{}", v.fingerprint)).or_insert(v.msg);
+                        }
+                    }
+                }
             }
         }
         out.sig = fnv_str(&format!("{}:{}", targets.len(), found.len()));
